@@ -16,7 +16,8 @@ import numpy as np
 
 from ..core import Machinery, frac, close, validate_trace
 
-REL = 1e-12
+REL = 1e-12           # mixture arithmetic (a handful of operations)
+RTOL = 1e-9           # profiles: chains of <= ~100 additions (cumulative-sum moving average, log/exp), DESIGN 2.4
 SLOG = 100000          # scale of logged log10 abundances
 SMIX = 8192            # scale of logged mixing ratios (mix events)
 FILLS = ['H2', 'He', 'N2']
@@ -268,10 +269,10 @@ def run_profile_vector(ctx, v):
               'n=%d: %s' % (n, err or 'shape %r' % (None if prof is None else prof.shape,))):
         return
     ok('profile_finite', np.all(np.isfinite(prof)), 'profile %r' % prof)
-    ok('profile_within_control_range', np.all(prof >= lo * (1 - 1e-12)) and np.all(prof <= hi * (1 + 1e-12)),
+    ok('profile_within_control_range', np.all(prof >= lo * (1 - RTOL)) and np.all(prof <= hi * (1 + RTOL)),
        'range [%r, %r] profile %r' % (lo, hi, prof))
     if v['exact']:
-        bad = [(l, prof[l], expect[l]) for l in range(n) if not close(prof[l], expect[l], rel=1e-10)]
+        bad = [(l, prof[l], expect[l]) for l in range(n) if not close(prof[l], expect[l], rel=RTOL)]
         ok('profile_exact_value', not bad, 'n=%d first mismatch (layer, got, exact) %r' % (n, bad[:1]))
 
 
@@ -319,8 +320,8 @@ def profile_event(r):
         return e, err or 'not a vector'
     fin = np.isfinite(prof) & (prof > 0.0)
     e.update(len=int(prof.shape[0]), v=[slog(x) for x in prof], nonfinite=int((~fin).sum()),
-             below=int((prof[fin] < lo * (1 - 1e-12)).sum()) if haslo else 0,
-             above=int((prof[fin] > hi * (1 + 1e-12)).sum()))
+             below=int((prof[fin] < lo * (1 - RTOL)).sum()) if haslo else 0,
+             above=int((prof[fin] > hi * (1 + RTOL)).sum()))
     return e, 'min %r max %r control range [%r, %r]' % (float(prof.min()), float(prof.max()), lo, hi)
 
 
@@ -514,7 +515,7 @@ def validate(ctx, recipes, label, canary=True):
         e['id'] = i
         events.append(e)
         details.append(d)
-    accepted, bad, res = validate_trace('Trace_Chemistry', 'Trace_Chemistry.cfg', events, timeout=1500)
+    accepted, bad, res = validate_trace('Trace_Chemistry', 'Trace_Chemistry.cfg', events, timeout=1500, env=JVM)
     ctx.add_tlc('trace-' + label, res, counts=False)
     if res.postcondition_false and not bad:
         raise Machinery('trace spec did not consume the whole trace:\n' + res.out[-1500:])
@@ -554,7 +555,7 @@ def validate(ctx, recipes, label, canary=True):
         cl = list(kinds.values())
         for k, c in enumerate(cl):
             c['id'] = k
-        ok2, bad2, _ = validate_trace('Trace_Chemistry', 'Trace_Chemistry.cfg', cl)
+        ok2, bad2, _ = validate_trace('Trace_Chemistry', 'Trace_Chemistry.cfg', cl, env=JVM)
         if ok2 or len(bad2) != len(cl):
             raise Machinery('canary accepted: trace validation of %s is vacuous (%r)' % (label, bad2))
     return len(events)
@@ -580,6 +581,8 @@ def dedupe(vecs):
             seen.add(k)
             out.append(v)
     return out
+
+JVM = {'JAVA_TOOL_OPTIONS': '-Xss64m'}     # deep (not wide) operator nesting on 100-layer profiles
 
 
 def quiet():
@@ -611,8 +614,12 @@ def run(ctx):
     ctx.expect_refuted('refute-twolayer-asbuilt', 'MC_GasProfile', 'RF_GasProfile_asbuilt.cfg', 'OneValuePerLayer')
     # ---- binding A
     check_mass_table(ctx)
-    res = ctx.check_spec('export-mixtures', 'MC_Chemistry', 'EX_Chemistry_%s.cfg' % ctx.tier, workers=1)
-    vecs = dedupe(res.tagged('VEC'))
+    res = ctx.check_spec('export-mixtures', 'MC_Chemistry', 'EX_Chemistry_quick.cfg', workers=1)
+    vecs = res.tagged('VEC')
+    if not q:
+        res = ctx.check_spec('export-mixtures-2', 'MC_Chemistry', 'EX_Chemistry_thorough.cfg', workers=1)
+        vecs += res.tagged('VEC')
+    vecs = dedupe(vecs)
     if len(vecs) < 1000:
         raise Machinery('only %d mixture vectors exported' % len(vecs))
     if q:   # all boundary / invalid / three-fill vectors, a seeded third of the rest
